@@ -1,5 +1,6 @@
 from circus.exc import ArgumentError, MessageError
 from circus import util
+import math
 import warnings
 try:
     import resource
@@ -119,6 +120,9 @@ def validate_option(key, val):
     elif key in ('warmup_delay', 'retry_in', 'graceful_timeout',):
         if not isinstance(val, (int, float)):
             raise MessageError("%r isn't a number" % key)
+        if isinstance(val, float) and (math.isnan(val) or math.isinf(val)):
+            # (JSON as Python reads it has NaN and Infinity)
+            raise MessageError("%r isn't a finite number" % key)
 
     elif key in ('uid', 'gid',):
         if not isinstance(val, int) and not isinstance(val, str):
